@@ -427,7 +427,15 @@ func runC03(r *simkit.Run, c Cfg) {
 	req0 := len(w.Net.Requests())
 	var res *result
 	if k.direct {
-		cl := ipnisync.NewSync(sub.LS, nil)
+		var copts []ipnisync.ClientOption
+		if c.Case < 0 && tp.Chance(1, 2, "authPeerID") {
+			// the client asks the server to authenticate its peer ID; with
+			// HTTP addresses the library falls back to plain HTTP, which
+			// cannot - the signer of the head is compared all the same
+			copts = append(copts, ipnisync.ClientAuthServerPeerID(true))
+			r.Probe("client-auth-server-peer-id")
+		}
+		cl := ipnisync.NewSync(sub.LS, nil, copts...)
 		res = run("GetHead", func() (cid.Cid, error) {
 			sy, err := cl.NewSyncer(withSuffix(pub.AddrInfo()))
 			if err != nil {
